@@ -298,6 +298,18 @@ def skeleton_paths(fn: ast.FunctionDef, unroll: int = 1, transparent=(), consts=
     evl = Evaluator(fn, transparent, consts)
     out = []
     seen = set()
+    # statements inside a loop body, and for each the lists that are created outside that loop (an append to those happens once per iteration)
+    in_loop = set()
+    outer_lists: Dict[int, set] = {}
+    for lp in ast.walk(fn):
+        if isinstance(lp, (ast.For, ast.While)):
+            created_inside = {t.id for b_ in lp.body for x in ast.walk(b_) if isinstance(x, ast.Assign) for t in x.targets if isinstance(t, ast.Name)}
+            for b_ in lp.body:
+                for x in ast.walk(b_):
+                    if isinstance(x, ast.Expr) and isinstance(x.value, ast.Call) and isinstance(x.value.func, ast.Attribute) and isinstance(x.value.func.value, ast.Name):
+                        in_loop.add(id(x))
+                        if x.value.func.value.id not in created_inside:
+                            outer_lists.setdefault(id(x), set()).add(x.value.func.value.id)
     for path in function_paths(fn, unroll=unroll):
         last = path[-1]
         if last.kind != 'return':
@@ -359,7 +371,10 @@ def skeleton_paths(fn: ast.FunctionDef, unroll: int = 1, transparent=(), consts=
                     and isinstance(n.value.func.value, ast.Name) and isinstance(env.get(n.value.func.value.id), ListVal):
                 lv: ListVal = env[n.value.func.value.id]          # type: ignore[assignment]
                 m = n.value.func.attr
-                if m == 'append' and len(n.value.args) == 1:
+                if m == 'append' and len(n.value.args) == 1 and id(n) in in_loop and n.value.func.value.id in outer_lists.get(id(n), ()):
+                    # appended once per iteration to a list that lives outside the loop: any number of such items (as a join over a comprehension would be read)
+                    lv.items.append([evl.st(n.value.args[0])])
+                elif m == 'append' and len(n.value.args) == 1:
                     v = evl.ev(n.value.args[0], env)
                     lv.items.append(v if isinstance(v, list) else [evl.h(n.value.args[0])])
                 elif m == 'extend' and len(n.value.args) == 1:
